@@ -103,6 +103,12 @@ class Tr:
         self.pending_choose = []
         self.pending_draws = 0
         self.chosen = set()
+        # recording plan for the differential state replay (harness/t2state.py): one emission per oracle-consuming atom
+        self.plan_emit = []      # dicts {kind, file, pos (statement), ...}
+        self.visits = {}         # (file, pos) -> number of times the statement was translated (helpers are inlined)
+        self.pending_src = []    # parallel to pending_choose: (reg, source text of the index expression, comprehension-local?)
+        self.comp_names = []     # names bound by the comprehensions being evaluated
+        self.cond_leaves = []    # Opaque leaves of the test being translated
 
     # -- class hierarchy
     def _mro(self, clsname, modname):
@@ -161,6 +167,58 @@ class Tr:
         self.seen_draw_nodes.add(key)
         self.draws.append((self.curfile, node.lineno, what))
         self.pending_draws += 1
+
+    # -- recording plan (additive: nothing here influences the generated program)
+    @staticmethod
+    def pos_of(node):
+        return [node.lineno, node.col_offset, getattr(node, 'end_lineno', None), getattr(node, 'end_col_offset', None)]
+
+    def visit(self, node, file=None):
+        k = (file or self.curfile, tuple(self.pos_of(node)))
+        self.visits[k] = self.visits.get(k, 0) + 1
+
+    def plan_add(self, kind, stmt_node, file=None, **extra):
+        """One oracle-consuming atom was emitted for the statement `stmt_node` (the statement whose translation count
+        the emission is compared with)."""
+        e = {'kind': kind, 'file': file or self.curfile, 'pos': self.pos_of(stmt_node), 'line': stmt_node.lineno}
+        e.update(extra)
+        self.plan_emit.append(e)
+
+    def plan_havoc(self, stmt_node, posattr, mode, ref):
+        """Havoc of `<agent>.position` by statement `stmt_node`; `posattr` is the Attribute node `<agent>.position`."""
+        if not (isinstance(posattr, ast.Attribute) and posattr.attr == 'position'):
+            self.plan_add('havoc', stmt_node, target=None, mode=mode, ref=list(ref), why='target is not a plain <agent>.position')
+            return
+        self.plan_add('havoc', stmt_node, target=ast.unparse(posattr), mode=mode, ref=list(ref))
+
+    def rep_any(self, s, body, idxvar=None):
+        self.plan_add('repeatany', s, idxvar=idxvar)
+        return self.at(s, ('RepeatAny', seq(body)))
+
+    def final_plan(self):
+        """Group the emissions by (kind, file, statement[, leaf]).  A statement translated several times (inlined helper) must
+        have produced the same emission every time; otherwise the optimizer is reported as not replayable (conflict)."""
+        groups, order = {}, []
+        for e in self.plan_emit:
+            key = (e['kind'], e['file'], tuple(e['pos']), tuple(e.get('leaf') or ()))
+            if key not in groups:
+                groups[key] = []
+                order.append(key)
+            groups[key].append(e)
+        entries, conflicts = [], []
+        for key in order:
+            es = groups[key]
+            first = es[0]
+            if any(x != first for x in es[1:]):
+                conflicts.append('%s:%d: %s translated with different payloads' % (first['file'], first['line'], first['kind']))
+            nv = self.visits.get((first['file'], tuple(first['pos'])), 0)
+            if nv != len(es):
+                conflicts.append('%s:%d: statement translated %d times but %s emitted %d times' % (first['file'], first['line'], nv, first['kind'], len(es)))
+            if first['kind'] == 'havoc' and first.get('target') is None:
+                conflicts.append('%s:%d: %s' % (first['file'], first['line'], first.get('why')))
+            entries.append(first)
+        # two different kinds of statement-level instrumentation at one statement are fine (idx before, havoc after, loop around)
+        return {'entries': entries, 'conflicts': conflicts, 'files': [f for _, f, _, _ in self.classes]}
 
     # -- expressions
     def ev(self, node, env):
@@ -272,12 +330,15 @@ class Tr:
         if isinstance(node, (ast.ListComp, ast.GeneratorExp)):
             # comprehension over the population reading attributes only
             env2 = dict(env)
+            ncomp = len(self.comp_names)
             for gen in node.generators:
                 it = self.ev(gen.iter, env2)
                 self.bind_ro(gen.target, it, env2, node)
+                self.comp_names.extend(n.id for n in ast.walk(gen.target) if isinstance(n, ast.Name))
                 for cond in gen.ifs:
                     self.ev_num(cond, env2)
             self.ev_num(node.elt, env2)
+            del self.comp_names[ncomp:]
             return NUM()
         if isinstance(node, ast.Call):
             return self.ev_call(node, env)
@@ -336,6 +397,7 @@ class Tr:
                 reg = self.newidx(ix.id)
                 env[ix.id] = SV('idx', reg=reg, lazy=True)
                 self.pending_choose.append(reg)
+                self.pending_src.append((reg, ix.id, ix.id in self.comp_names))
                 return ('Slot', reg)
         if isinstance(ix, ast.Subscript) and isinstance(ix.value, ast.Name):
             # s[0], s[1] of a pair of selected indices
@@ -346,10 +408,12 @@ class Tr:
                 if name not in self.chosen:
                     self.chosen.add(name)
                     self.pending_choose.append(reg)
+                    self.pending_src.append((reg, ast.unparse(ix), ix.value.id in self.comp_names))
                 return ('Slot', reg)
         if isinstance(ix, ast.Constant) and isinstance(ix.value, int):
             reg = self.newidx('const%d' % ix.value)
             self.pending_choose.append(reg)
+            self.pending_src.append((reg, repr(ix.value), False))
             return ('Slot', reg)
         self.err(node, 'unsupported population index')
 
@@ -452,11 +516,16 @@ class Tr:
             out.extend(self.stmt(s, env))
         return out
 
-    def flush(self, node, produced):
+    def flush(self, node, produced, file=None):
         """Prefix pending ChooseIdx / Draw markers produced while evaluating a statement's expressions."""
         pre = []
         for reg in self.pending_choose:
             pre.append(('ChooseIdx', reg))
+        if self.pending_choose:
+            ok = [r for r, _, _ in self.pending_src] == list(self.pending_choose)
+            self.plan_add('chooseidx', node, file=file, regs=list(self.pending_choose),
+                          exprs=[[t, bool(c)] for _, t, c in self.pending_src] if ok else None)
+        self.pending_src = []
         self.pending_choose = []
         for _ in range(self.pending_draws):
             pre.append(('Draw',))
@@ -470,6 +539,8 @@ class Tr:
     def stmt(self, s, env):
         self.pending_choose = getattr(self, 'pending_choose', [])
         self.pending_draws = getattr(self, 'pending_draws', 0)
+        if not isinstance(s, ast.If):
+            self.visit(s)
         if isinstance(s, ast.Expr):
             if isinstance(s.value, ast.Constant):
                 return []
@@ -584,12 +655,13 @@ class Tr:
         for i, p in enumerate(params[1 + len(args):]):
             env2[p] = NUM()
         save = (self.curfile, self.cursrc)
+        callerfile = self.curfile
         self.curfile, self.cursrc = file, src
         self.depth += 1
         body = [b for b in m.body]
         ret = NUM()
         out = []
-        pre = self.flush(node, [])       # ChooseIdx for argument indices happen before the callee
+        pre = self.flush(node, [], file=callerfile)       # ChooseIdx for argument indices happen before the callee
         save2 = (self.curfile, self.cursrc)
         out.extend(pre)
         last_ret = None
@@ -615,6 +687,7 @@ class Tr:
                 out.extend(self.stmt(st, env2))
         if last_ret is not None and last_ret.value is not None:
             ret = self.ev(last_ret.value, env2)
+            self.visit(last_ret)
             out.extend(self.flush(last_ret, []))
         self.depth -= 1
         self.curfile, self.cursrc = save
@@ -678,6 +751,7 @@ class Tr:
                     if not all(t is not None and t.kind == 'tree' for t in tv) or len(tv) != 2:
                         self.err(node, 'unsupported crossover assignment')
                     self.note_draw(v.node, '_cross')
+                    self.plan_add('tree', node, step='cross')
                     return [('TreeCross', tv[0].ix, tv[1].ix)]
                 self.err(node, 'unsupported assignment to trees')
         if isinstance(target, (ast.Tuple, ast.List)):
@@ -747,7 +821,7 @@ class Tr:
         if isinstance(target, ast.Attribute):
             tv = self.ev(target, env)
             if tv.kind == 'pos':
-                return self.assign_pos(tv.ref, value, env, node)
+                return self.assign_pos(tv.ref, value, env, node, target)
             if tv.kind == 'fit':
                 v = self.ev(value, env)
                 if v.kind == 'evalof':
@@ -787,6 +861,7 @@ class Tr:
                 tref = self.slot_ref(target.slice, env, node, tree=True)
                 v = self.ev(value, env)
                 if v.kind == 'deepcopy' and v.of.kind == 'tree':
+                    self.plan_add('tree', node, step='copy')
                     return [('TreeCopy', tref, v.of.ix)]
                 if v.kind == 'selfcall' and v.name == '_mutate':
                     for a in v.node.args:
@@ -794,14 +869,17 @@ class Tr:
                         if av.kind not in ('tree', 'num', 'idx', 'space'):
                             self.err(node, 'agent passed to _mutate')
                     self.note_draw(v.node, '_mutate')
+                    self.plan_add('tree', node, step='mutate')
                     return [('TreeSet', tref, 'mutate')]
                 if v.kind == 'newtree':
+                    self.plan_add('tree', node, step='grow')
                     return [('TreeSet', tref, 'grow')]
                 self.err(node, 'tree slot assigned from %r' % v)
             if base.kind == 'pos':
                 # agent.position[j] = expr : in-place row write
                 self.ev_num(target.slice, env)
                 v = self.ev_num(value, env)
+                self.plan_havoc(node, target.value, 'InPlace', base.ref)
                 return [('Havoc', 'InPlace', base.ref)]
             if base.kind == 'locpos':
                 ix = target.slice
@@ -824,7 +902,7 @@ class Tr:
             self.err(node, 'store into subscript of %r' % base)
         self.err(node, 'unsupported assignment target')
 
-    def assign_pos(self, ref, value, env, node):
+    def assign_pos(self, ref, value, env, node, target=None):
         v = self.ev(value, env)
         if v.kind == 'deepcopy':
             o = v.of
@@ -839,6 +917,7 @@ class Tr:
                     self.err(node, 'position from another tree than the agent\'s own')
                 return [('PosFromTree', ref)]
             if o.kind in ('num', 'rodata'):
+                self.plan_havoc(node, target, 'Fresh', ref)
                 return [('Havoc', 'Fresh', ref)]
             self.err(node, 'position := deepcopy(%r)' % o)
         if v.kind in ('pos', 'locrow', 'rodata', 'treepos'):
@@ -847,6 +926,7 @@ class Tr:
             stmts, ret = self.inline(v.name, v.node, env, node)
             if ret.kind in ('pos', 'locrow', 'rodata', 'treepos', 'agent'):
                 self.err(node, 'helper %s returns an alias (%r) that is stored as a position' % (v.name, ret))
+            self.plan_havoc(node, target, 'Fresh', ref)
             return stmts + [('Havoc', 'Fresh', ref)]
         if v.kind == 'num':
             # BinOp / np call result: must be a *new* array: a bare Name bound to rodata was rejected above
@@ -855,9 +935,11 @@ class Tr:
                     f = self.ev(value.func, env)
                     if f.kind == 'modattr' and f.mod == 'np' and f.name in ('asarray', 'asanyarray', 'ravel', 'reshape', 'squeeze', 'transpose', 'atleast_2d'):
                         self.err(node, 'np.%s may return a view/alias of its argument' % f.name)
+                self.plan_havoc(node, target, 'Fresh', ref)
                 return [('Havoc', 'Fresh', ref)]
             if isinstance(value, ast.Name):
                 # a numeric local computed earlier by arithmetic
+                self.plan_havoc(node, target, 'Fresh', ref)
                 return [('Havoc', 'Fresh', ref)]
         self.err(node, 'position assigned from %r' % v)
 
@@ -876,6 +958,7 @@ class Tr:
             return []
         if tv.kind == 'pos':
             self.ev_num(s.value, env)
+            self.plan_havoc(s, s.target, 'InPlace', tv.ref)
             return [('Havoc', 'InPlace', tv.ref)]
         if tv.kind == 'hyper':
             self.ev_num(s.value, env)
@@ -934,16 +1017,20 @@ class Tr:
                 if c is not None:
                     return c
         self.ev_num(node, env)
+        self.cond_leaves.append(node)
         return ('Opaque',)
 
     def if_stmt(self, s, env, tail=False):
+        self.visit(s)
         # hook idiom
         t = s.test
         if isinstance(t, ast.Name) and env.get(t.id) is not None and env[t.id].kind == 'hook':
             if s.orelse:
                 self.err(s, 'hook guard with else')
             return self.block(s.body, env)
+        self.cond_leaves = []
         c = self.cond(t, env)
+        leaves = self.cond_leaves
         pre = self.flush(s, [])
         env1, env2 = dict(env), dict(env)
         b1 = self.block(s.body, env1, tail)
@@ -959,6 +1046,8 @@ class Tr:
                 env[k] = NUM() if {a.kind, b.kind} <= {'num', 'idx', 'rodata', 'tmpfit'} else a
         if not b1 and not b2 and c == ('Opaque',):
             return pre
+        for leaf in leaves:       # one ABool per Opaque leaf, in Python's short-circuit order (norm_if)
+            self.plan_add('opaque', s, leaf=self.pos_of(leaf), text=' '.join(ast.unparse(leaf).split())[:80])
         return pre + [self.at(s, ('If', c, seq(b1), seq(b2)))]
 
     def for_stmt(self, s, env):
@@ -988,16 +1077,18 @@ class Tr:
                 if not isinstance(tgt, ast.Name):
                     self.err(s, 'range loop target')
                 # a loop variable used as a population index stands for any in-range index, chosen once per iteration
+                idxvar = None
                 if used_as_index(s.body, tgt.id):
                     reg = self.newidx(tgt.id)
                     env2[tgt.id] = SV('idx', reg=reg)
                     body = [('ChooseIdx', reg)] + self.block(s.body, env2, True)
+                    idxvar = tgt.id
                 else:
                     env2[tgt.id] = NUM()
                     body = self.block(s.body, env2, True)
                 if not body:
                     return pre
-                return pre + [self.at(s, ('RepeatAny', seq(body)))]
+                return pre + [self.rep_any(s, body, idxvar)]
             if fname == 'enumerate':
                 inner = self.ev(call.args[0], env)
                 if not (isinstance(tgt, ast.Tuple) and len(tgt.elts) == 2 and isinstance(tgt.elts[0], ast.Name)):
@@ -1011,7 +1102,7 @@ class Tr:
                                 env2[n.id] = NUM()
                         body = self.block(s.body, env2, True)
                         pre = self.flush(s, [])
-                        return pre + ([self.at(s, ('RepeatAny', seq(body)))] if body else [])
+                        return pre + ([self.rep_any(s, body)] if body else [])
                     return self.slot_loop(s, env, kinds, tgt.elts[1], ixname)
                 if inner.kind in ('pop', 'shadows'):
                     return self.slot_loop(s, env, [inner], tgt.elts[1], ixname)
@@ -1021,7 +1112,7 @@ class Tr:
                             env2[n.id] = NUM()
                     body = self.block(s.body, env2, True)
                     pre = self.flush(s, [])
-                    return pre + ([self.at(s, ('RepeatAny', seq(body)))] if body else [])
+                    return pre + ([self.rep_any(s, body)] if body else [])
                 self.err(s, 'enumerate over %r' % inner)
             if fname == 'zip':
                 kinds = [self.ev(a, env) for a in call.args]
@@ -1031,7 +1122,7 @@ class Tr:
                             env2[n.id] = NUM()
                     body = self.block(s.body, env2, True)
                     pre = self.flush(s, [])
-                    return pre + ([self.at(s, ('RepeatAny', seq(body)))] if body else [])
+                    return pre + ([self.rep_any(s, body)] if body else [])
                 return self.slot_loop(s, env, kinds, tgt, None)
         if it.kind in ('pop', 'shadows'):
             return self.slot_loop(s, env, [it], tgt, None)
@@ -1045,7 +1136,7 @@ class Tr:
             pre = self.flush(s, [])
             regs = [v.reg for k, v in env2.items() if v is not None and v.kind == 'idx' and getattr(v, 'lazy', False)
                     and (env.get(k) is None or env[k].kind != 'idx')]
-            return pre + ([self.at(s, ('RepeatAny', seq(body)))] if body else [])
+            return pre + ([self.rep_any(s, body)] if body else [])
         self.err(s, 'loop over %r' % it)
 
     def slot_loop(self, s, env, kinds, tgt, ixname):
@@ -1072,7 +1163,7 @@ class Tr:
         if nested:
             # inner loop over the population inside a slot loop: read-only sweep, any number of times
             body = self.block(s.body, env2, True)
-            return pre + ([self.at(s, ('RepeatAny', seq(body)))] if body else [])
+            return pre + ([self.rep_any(s, body)] if body else [])
         env2['__in_slots__'] = SV('flag')
         body = self.block(s.body, env2, True)
         # numeric locals assigned in the body stay visible
@@ -1115,11 +1206,13 @@ class Tr:
         new_loop = ast.For(target=loop.target, iter=loop.iter, body=[new_if if b is sel else b for b in loop.body], orelse=[])
         ast.copy_location(new_loop, loop)
         ast.fix_missing_locations(new_loop)
+        self.visit(new_loop)
         inner = self.for_stmt(new_loop, env)
         # inner is [At(ForSlots body)] possibly preceded by flushes
         if not inner or inner[-1][0] != 'At' or inner[-1][2][0] != 'ForSlots':
             self.err(s, 'onlooker loop: body is not a population sweep')
         body = inner[-1][2][1]
+        self.plan_add('onlooker', s)
         return inner[:-1] + [self.at(s, ('Onlooker', body))]
 
     # -- entry
@@ -1144,6 +1237,7 @@ class Tr:
                     and st.targets[0].id == 'local_position':
                 self.ev_num(st.value, env)
                 env['local_position'] = LOCPOS
+                self.visit(st)
                 out.extend(self.flush(st, []))
                 continue
             out.extend(self.stmt(st, env))
@@ -1259,7 +1353,7 @@ def translate_all(repo):
             out.append('Definition prog_%s : stmt :=\n %s.\n' % (cls, coq_stmt(prog)))
             out.append('Definition locs_%s : list string := [\n  %s].\n' % (cls, ';\n  '.join(coq_str(l) for l in t.locs)))
             meta[cls] = {'hyper_writes': t.hyper_writes, 'draws': t.draws, 'ambient': t.ambient, 'dump_keys': t.dump_keys,
-                         'hook_calls': t.hook_calls, 'locs': t.locs, 'ir': prog}
+                         'hook_calls': t.hook_calls, 'locs': t.locs, 'ir': prog, 'plan': t.final_plan()}
             names.append(cls)
         except TranslationError as ex:
             errors.append({'item': cls, 'file': ex.file, 'line': ex.line, 'msg': ex.msg})
